@@ -2,68 +2,169 @@
 import RtcModel.Lifecycle
 namespace RtcModel.Lifecycle
 
-/-! ### reason -/
+/-! ### field frames of the small building blocks -/
 
-theorem setReasonIfNone_keeps (s : St) (x r : Reason) (h : s.reason = some r) :
-    (setReasonIfNone s x).reason = some r := by
+section frames
+variable (s : St) (r : Reason) (p : PeerSt)
+
+@[simp] theorem setReasonIfNone_peer : (setReasonIfNone s r).peer = s.peer := by unfold setReasonIfNone; split <;> rfl
+@[simp] theorem setReasonIfNone_sig : (setReasonIfNone s r).sig = s.sig := by unfold setReasonIfNone; split <;> rfl
+@[simp] theorem setReasonIfNone_chans : (setReasonIfNone s r).chans = s.chans := by unfold setReasonIfNone; split <;> rfl
+@[simp] theorem setReasonIfNone_drv : (setReasonIfNone s r).drv = s.drv := by unfold setReasonIfNone; split <;> rfl
+@[simp] theorem setReasonIfNone_sctp : (setReasonIfNone s r).sctp = s.sctp := by unfold setReasonIfNone; split <;> rfl
+@[simp] theorem setReasonIfNone_appGone : (setReasonIfNone s r).appGone = s.appGone := by unfold setReasonIfNone; split <;> rfl
+theorem setReasonIfNone_keeps (x : Reason) (h : s.reason = some r) : (setReasonIfNone s x).reason = some r := by
   simp [setReasonIfNone, h]
-
-theorem setReasonIfNone_isSome (s : St) (x : Reason) : (setReasonIfNone s x).reason.isSome = true := by
+theorem setReasonIfNone_isSome : (setReasonIfNone s r).reason.isSome = true := by
   unfold setReasonIfNone; split <;> simp_all
 
-@[simp] theorem sctpEnd_reason (s : St) : (sctpEnd s).reason = s.reason := rfl
-@[simp] theorem abortLoops_reason (s : St) : (abortLoops s).reason = s.reason := by
-  unfold abortLoops; split <;> rfl
-@[simp] theorem beginStart_reason (s : St) : (beginStart s).reason = s.reason := rfl
-@[simp] theorem topConnected_reason (s : St) : (topConnected s).reason = s.reason := by
-  unfold topConnected; split <;> (try split) <;> rfl
-@[simp] theorem closeB_reason (s : St) : (closeB s).reason = s.reason := rfl
-@[simp] theorem closeC_reason (s : St) : (closeC s).reason = s.reason := rfl
+@[simp] theorem setPeer_reason : (setPeer s p).reason = s.reason := by unfold setPeer; split <;> rfl
+@[simp] theorem setPeer_sig : (setPeer s p).sig = s.sig := by unfold setPeer; split <;> rfl
+@[simp] theorem setPeer_chans : (setPeer s p).chans = s.chans := by unfold setPeer; split <;> rfl
+@[simp] theorem setPeer_drv : (setPeer s p).drv = s.drv := by unfold setPeer; split <;> rfl
+@[simp] theorem setPeer_sctp : (setPeer s p).sctp = s.sctp := by unfold setPeer; split <;> rfl
+@[simp] theorem setPeer_appGone : (setPeer s p).appGone = s.appGone := by unfold setPeer; split <;> rfl
+theorem setPeer_closed (h : s.peer = .closed) : (setPeer s p).peer = .closed := by simp [setPeer, h]
+theorem setPeer_peer : (setPeer s p).peer = .closed ∨ (setPeer s p).peer = p := by
+  unfold setPeer; split <;> simp_all
 
-@[simp] theorem markGone_reason (s : St) : (markGone s).reason = s.reason := by
-  unfold markGone; split <;> rfl
-@[simp] theorem markGone_chans (s : St) : (markGone s).chans = s.chans := by
-  unfold markGone; split <;> rfl
+@[simp] theorem sctpEnd_reason : (sctpEnd s).reason = s.reason := rfl
+@[simp] theorem sctpEnd_peer : (sctpEnd s).peer = s.peer := rfl
+@[simp] theorem sctpEnd_sig : (sctpEnd s).sig = s.sig := rfl
+@[simp] theorem sctpEnd_drv : (sctpEnd s).drv = s.drv := rfl
+@[simp] theorem sctpEnd_appGone : (sctpEnd s).appGone = s.appGone := rfl
+@[simp] theorem abortLoops_reason : (abortLoops s).reason = s.reason := by unfold abortLoops; split <;> rfl
+@[simp] theorem abortLoops_peer : (abortLoops s).peer = s.peer := by unfold abortLoops; split <;> rfl
+@[simp] theorem abortLoops_sig : (abortLoops s).sig = s.sig := by unfold abortLoops; split <;> rfl
+@[simp] theorem abortLoops_drv : (abortLoops s).drv = s.drv := by unfold abortLoops; split <;> rfl
+@[simp] theorem abortLoops_appGone : (abortLoops s).appGone = s.appGone := by unfold abortLoops; split <;> rfl
+@[simp] theorem abortLoops_held : (abortLoops s).held = s.held := by unfold abortLoops; split <;> rfl
+@[simp] theorem abortLoops_close : (abortLoops s).close = s.close := by unfold abortLoops; split <;> rfl
+@[simp] theorem abortLoops_ice : (abortLoops s).ice = s.ice := by unfold abortLoops; split <;> rfl
 
-theorem propagate_keeps (s : St) (r : Reason) (h : s.reason = some r) : (propagate s).reason = some r := by
-  unfold propagate
-  split
+@[simp] theorem markGone_reason : (markGone s).reason = s.reason := by unfold markGone; split <;> rfl
+@[simp] theorem markGone_sig : (markGone s).sig = s.sig := by unfold markGone; split <;> rfl
+@[simp] theorem markGone_chans : (markGone s).chans = s.chans := by unfold markGone; split <;> rfl
+theorem markGone_closed (h : s.peer = .closed) : (markGone s).peer = .closed := by simp [markGone, h]
+
+@[simp] theorem propagate_chans : (propagate s).chans = s.chans := by
+  unfold propagate; split
+  · split
+    · split <;> simp
+    · rfl
+  · rfl
+@[simp] theorem propagate_sig : (propagate s).sig = s.sig := by
+  unfold propagate; split
+  · split
+    · split <;> simp
+    · rfl
+  · rfl
+theorem propagate_keeps (h : s.reason = some r) : (propagate s).reason = some r := by
+  unfold propagate; split
   · split
     · split
-      · simp [setReasonIfNone_keeps s _ r h]
+      · simp [setReasonIfNone_keeps s r _ h]
+      · exact h
+    · exact h
+  · exact h
+theorem propagate_closed (h : s.peer = .closed) : (propagate s).peer = .closed := by
+  unfold propagate; split
+  · split
+    · split
+      · exact markGone_closed _ (by simp [h])
       · exact h
     · exact h
   · exact h
 
-theorem teardown_keeps (s : St) (a r : Reason) (h : s.reason = some r) : (teardown s a).reason = some r := by
-  unfold teardown
-  split
+@[simp] theorem failExit_reason : (failExit s).reason = s.reason := by simp [failExit]
+@[simp] theorem failExit_sig : (failExit s).sig = s.sig := by simp [failExit]
+@[simp] theorem failExit_drv : (failExit s).drv = .done := by simp [failExit]
+theorem failExit_closed (h : s.peer = .closed) : (failExit s).peer = .closed := by simp [failExit, setPeer, h]
+theorem failExit_chans : (failExit s).chans = s.chans.map closeChan := by simp [failExit]
+
+theorem teardown_peer : (teardown s r).peer = .closed := by unfold teardown; split <;> simp_all
+theorem teardown_keeps (x : Reason) (h : s.reason = some r) : (teardown s x).reason = some r := by
+  unfold teardown; split
   · exact h
   · simp [setReasonIfNone, h]
+theorem teardown_sig (h : s.sig = .closed) : (teardown s r).sig = .closed := by
+  unfold teardown; split <;> simp_all
+@[simp] theorem teardown_drv : (teardown s r).drv = s.drv := by unfold teardown; split <;> simp
+@[simp] theorem teardown_appGone : (teardown s r).appGone = s.appGone := by unfold teardown; split <;> simp
 
-theorem topDown_keeps (s : St) (r : Reason) (h : s.reason = some r) : (topDown s).reason = some r := by
-  unfold topDown
-  split
+theorem dropAll_peer : (dropAll s).peer = .closed := by simp [dropAll, teardown_peer]
+theorem dropAll_keeps (h : s.reason = some r) : (dropAll s).reason = some r := by
+  simp [dropAll]; exact teardown_keeps s r _ h
+theorem dropAll_sig (h : s.sig = .closed) : (dropAll s).sig = .closed := by
+  simp [dropAll]; exact teardown_sig s _ h
+@[simp] theorem dropAll_drv : (dropAll s).drv = .done := by simp [dropAll]
+
+theorem release_keeps (h : s.reason = some r) : (release s).reason = some r := by
+  unfold release; split
+  · exact dropAll_keeps s r h
+  · exact h
+theorem release_closed (h : s.peer = .closed) : (release s).peer = .closed := by
+  unfold release; split
+  · exact dropAll_peer s
+  · exact h
+theorem release_sig (h : s.sig = .closed) : (release s).sig = .closed := by
+  unfold release; split
+  · exact dropAll_sig s h
+  · exact h
+
+theorem topDown_keeps (h : s.reason = some r) : (topDown s).reason = some r := by
+  unfold topDown; split
   · simp [setReasonIfNone, h]
   · split
     · simp only []
-      exact teardown_keeps _ _ r (setReasonIfNone_keeps s _ r h)
+      exact teardown_keeps _ r _ (setReasonIfNone_keeps s r _ h)
+    · exact h
+theorem topDown_closed (h : s.peer = .closed) : (topDown s).peer = .closed := by
+  unfold topDown; split
+  · simp [failExit, setPeer, h]
+  · split
+    · simp [teardown_peer]
+    · exact h
+theorem topDown_sig (h : s.sig = .closed) : (topDown s).sig = .closed := by
+  unfold topDown; split
+  · simp [h]
+  · split
+    · simp only []
+      exact teardown_sig _ _ (by simp [h])
     · exact h
 
-theorem closeA_keeps (s : St) (a r : Reason) (h : s.reason = some r) : (closeA s a).reason = some r := by
-  unfold closeA
-  split
+@[simp] theorem beginStart_reason : (beginStart s).reason = s.reason := rfl
+@[simp] theorem beginStart_peer : (beginStart s).peer = s.peer := rfl
+@[simp] theorem beginStart_sig : (beginStart s).sig = s.sig := rfl
+@[simp] theorem beginStart_chans : (beginStart s).chans = s.chans := rfl
+@[simp] theorem topConnected_reason : (topConnected s).reason = s.reason := by
+  unfold topConnected; split <;> split <;> rfl
+@[simp] theorem topConnected_peer : (topConnected s).peer = s.peer := by
+  unfold topConnected; split <;> split <;> rfl
+@[simp] theorem topConnected_sig : (topConnected s).sig = s.sig := by
+  unfold topConnected; split <;> split <;> rfl
+@[simp] theorem topConnected_chans : (topConnected s).chans = s.chans := by
+  unfold topConnected; split <;> split <;> rfl
+
+theorem closeA_keeps (a : Reason) (h : s.reason = some r) : (closeA s a).reason = some r := by
+  unfold closeA; split
   · exact h
   · simp [setReasonIfNone, h]
+theorem closeA_closed (a : Reason) (h : s.peer = .closed) : (closeA s a).peer = .closed := by
+  simp [closeA, h]
+theorem closeA_sig (a : Reason) (h : s.sig = .closed) : (closeA s a).sig = .closed := by
+  unfold closeA; split <;> simp [h]
+@[simp] theorem closeA_chans (a : Reason) : (closeA s a).chans = s.chans := by unfold closeA; split <;> simp
+@[simp] theorem closeA_drv (a : Reason) : (closeA s a).drv = s.drv := by unfold closeA; split <;> simp
+@[simp] theorem closeB_reason : (closeB s).reason = s.reason := rfl
+@[simp] theorem closeC_reason : (closeC s).reason = s.reason := by simp [closeC]
+theorem closeB_chans : (closeB s).chans = s.chans.map closeChan := rfl
 
-theorem dropAll_keeps (s : St) (r : Reason) (h : s.reason = some r) : (dropAll s).reason = some r := by
-  unfold dropAll
-  simp only [abortLoops_reason]
-  exact teardown_keeps s _ r h
+end frames
 
 /-! ### channels: every block either leaves the list alone or maps `closeChan` over it -/
 
-/-- the only two things that ever happen to the channel list -/
+/-- the only two things the connection's own teardown paths ever do to the channel list -/
 def ChansStep (old new : List Chan) : Prop := new = old ∨ new = old.map closeChan
 
 theorem closeChan_idem (c : Chan) : closeChan (closeChan c) = closeChan c := by
@@ -72,6 +173,8 @@ theorem closeChan_idem (c : Chan) : closeChan (closeChan c) = closeChan c := by
 theorem map_closeChan_idem (l : List Chan) : (l.map closeChan).map closeChan = l.map closeChan := by
   simp [List.map_map, Function.comp_def, closeChan_idem]
 
+theorem ChansStep.refl (a : List Chan) : ChansStep a a := Or.inl rfl
+
 theorem ChansStep.trans {a b c : List Chan} (h1 : ChansStep a b) (h2 : ChansStep b c) : ChansStep a c := by
   rcases h1 with h1 | h1 <;> rcases h2 with h2 | h2 <;> subst h1 <;> subst h2
   · left; rfl
@@ -79,68 +182,49 @@ theorem ChansStep.trans {a b c : List Chan} (h1 : ChansStep a b) (h2 : ChansStep
   · right; rfl
   · right; exact map_closeChan_idem a
 
-theorem ChansStep.refl (a : List Chan) : ChansStep a a := Or.inl rfl
-
-theorem sctpEnd_chans (s : St) : ChansStep s.chans (sctpEnd s).chans := Or.inr rfl
-theorem abortLoops_chans (s : St) : ChansStep s.chans (abortLoops s).chans := by
-  unfold abortLoops; split
-  · exact sctpEnd_chans s
-  · exact .refl _
-@[simp] theorem setReasonIfNone_chans (s : St) (r : Reason) : (setReasonIfNone s r).chans = s.chans := by
-  unfold setReasonIfNone; split <;> rfl
-@[simp] theorem propagate_chans (s : St) : (propagate s).chans = s.chans := by
-  unfold propagate
-  split
-  · split
-    · split
-      · simp
-      · rfl
-    · rfl
-  · rfl
-theorem teardown_chans (s : St) (a : Reason) : ChansStep s.chans (teardown s a).chans := by
-  unfold teardown; split
-  · exact .refl _
-  · right; rfl
-theorem topDown_chans (s : St) : ChansStep s.chans (topDown s).chans := by
-  unfold topDown
-  split
-  · left; simp
-  · split
-    · have := teardown_chans (setReasonIfNone s .iceDisconnected) .iceDisconnected
-      simpa using this
-    · exact .refl _
-@[simp] theorem beginStart_chans (s : St) : (beginStart s).chans = s.chans := rfl
-@[simp] theorem topConnected_chans (s : St) : (topConnected s).chans = s.chans := by
-  unfold topConnected; split <;> (try split) <;> rfl
-@[simp] theorem closeA_chans (s : St) (a : Reason) : (closeA s a).chans = s.chans := by
-  unfold closeA; split <;> simp
-theorem closeB_chans (s : St) : (closeB s).chans = s.chans.map closeChan := rfl
-@[simp] theorem closeC_chans (s : St) : (closeC s).chans = s.chans := rfl
-theorem dropAll_chans (s : St) : ChansStep s.chans (dropAll s).chans := by
-  unfold dropAll
-  have h1 := teardown_chans s .dropped
-  have h2 := abortLoops_chans { teardown s .dropped with drv := .done }
-  exact h1.trans h2
-
-end RtcModel.Lifecycle
-
-namespace RtcModel.Lifecycle
-
-/-! ### flexible forms (the argument is any state with the same channels / reason) -/
-
 theorem sctpEnd_chans' (s t : St) (h : t.chans = s.chans) : ChansStep s.chans (sctpEnd t).chans := by
   right; simp [sctpEnd, h]
-theorem abortLoops_chans' (s t : St) (h : t.chans = s.chans) : ChansStep s.chans (abortLoops t).chans := by
-  have := abortLoops_chans t; rwa [h] at this
-theorem topDown_chans' (s t : St) (h : ChansStep s.chans t.chans) : ChansStep s.chans (topDown t).chans :=
-  h.trans (topDown_chans t)
+theorem abortLoops_chans' (s t : St) (h : ChansStep s.chans t.chans) : ChansStep s.chans (abortLoops t).chans := by
+  unfold abortLoops; split
+  · exact h.trans (Or.inr rfl)
+  · exact h
+theorem teardown_chans' (s t : St) (a : Reason) (h : ChansStep s.chans t.chans) : ChansStep s.chans (teardown t a).chans := by
+  unfold teardown; split
+  · exact h
+  · exact h.trans (Or.inr rfl)
+theorem dropAll_chans' (s t : St) (h : ChansStep s.chans t.chans) : ChansStep s.chans (dropAll t).chans := by
+  unfold dropAll
+  exact abortLoops_chans' s _ (by simpa using teardown_chans' s t .dropped h)
+theorem release_chans' (s t : St) (h : ChansStep s.chans t.chans) : ChansStep s.chans (release t).chans := by
+  unfold release; split
+  · exact dropAll_chans' s t h
+  · exact h
+theorem topDown_chans' (s t : St) (h : ChansStep s.chans t.chans) : ChansStep s.chans (topDown t).chans := by
+  unfold topDown; split
+  · have : ChansStep s.chans (t.chans.map closeChan) := h.trans (Or.inr rfl)
+    simpa [failExit] using this
+  · split
+    · simpa using teardown_chans' s (setReasonIfNone t .iceDisconnected) .iceDisconnected (by simpa using h)
+    · exact h
 
-/-- per action: the channel list is left alone or closed-once over -/
-theorem apply_chans (s : St) (a : Act) : ChansStep s.chans (apply s a).chans := by
+theorem closeC_chans_step (s : St) : ChansStep s.chans (closeC s).chans := by
+  unfold closeC; exact abortLoops_chans' s _ (Or.inl rfl)
+
+theorem ChansStep.all_closed {a b : List Chan} (h : ChansStep a b) (ha : ∀ c ∈ a, c.closed = true) : ∀ c ∈ b, c.closed = true := by
+  rcases h with e | e
+  · rw [e]; exact ha
+  · rw [e]; intro c hc
+    simp only [List.mem_map] at hc
+    obtain ⟨c0, h0, rfl⟩ := hc
+    simp [closeChan, ha c0 h0]
+
+/-- per action other than the raw `close_data_channel`: the channel list is left alone or closed-once over -/
+theorem apply_chans (s : St) (a : Act) (hne : ∀ i, a ≠ .closeChannel i) : ChansStep s.chans (apply s a).chans := by
   cases a with
+  | closeChannel i => exact absurd rfl (hne i)
   | callClose arg => simp only [apply]; left; simp
-  | closeStep => simp only [apply]; split; exact Or.inr rfl; exact Or.inl rfl
-  | appDrop => simp only [apply]; split; exact .refl _; exact dropAll_chans s
+  | closeStep => simp only [apply]; split; exact Or.inr rfl; exact abortLoops_chans' s _ (Or.inl rfl)
+  | appDrop => simp only [apply]; split; exact Or.inl rfl; exact dropAll_chans' s _ (Or.inl rfl)
   | peerAbort => exact sctpEnd_chans' s _ rfl
   | peerShutdownAck => exact sctpEnd_chans' s _ rfl
   | peerShutdown => exact sctpEnd_chans' s _ rfl
@@ -149,44 +233,50 @@ theorem apply_chans (s : St) (a : Act) : ChansStep s.chans (apply s a).chans := 
     simp only [apply]; split
     · left; simp
     · split
-      · exact topDown_chans s
+      · exact topDown_chans' s s (.refl _)
       · exact Or.inl rfl
   | drvRole => exact Or.inl rfl
+  | drvDescs => simp only [apply]; split <;> exact Or.inl rfl
   | drvStart =>
     simp only [apply]; split
     · split
-      · exact Or.inl rfl
-      · left; simp
+      · split
+        · exact release_chans' s _ (Or.inl rfl)
+        · exact release_chans' s _ (Or.inl rfl)
+      · exact release_chans' s _ (by right; simp [failExit])
     · split
-      · exact Or.inl rfl
-      · exact abortLoops_chans' s _ (by simp)
+      · split
+        · exact release_chans' s _ (abortLoops_chans' s _ (Or.inl rfl))
+        · exact release_chans' s _ (Or.inl rfl)
+      · exact release_chans' s _ (abortLoops_chans' s _ (by right; simp [failExit]))
   | drvLoops =>
     simp only [apply]
-    have h1 : ChansStep s.chans (abortLoops (propagate s)).chans := abortLoops_chans' s _ (by simp)
+    have h1 : ChansStep s.chans (abortLoops (propagate s)).chans := abortLoops_chans' s _ (by left; simp)
     split
     · exact topDown_chans' s _ h1
     · exact h1
   | drvIce =>
     simp only [apply]; split
-    · exact topDown_chans' s _ (abortLoops_chans s)
+    · exact topDown_chans' s _ (abortLoops_chans' s s (.refl _))
     · split
       · split
-        · exact Or.inl rfl
-        · split <;> exact Or.inl rfl
+        · left; simp
+        · split
+          · left; simp
+          · exact Or.inl rfl
       · exact Or.inl rfl
   | drvDtls =>
     simp only [apply]; split
-    · exact abortLoops_chans' s _ (by simp)
+    · exact abortLoops_chans' s _ (by left; simp)
     · exact Or.inl rfl
   | drvGrace =>
     simp only [apply]
-    have := abortLoops_chans' s ({ setReasonIfNone s .iceDisconnected with peer := .disconnected, grace := false, sctpCloseReq := if s.held then true else s.sctpCloseReq }) (by simp)
-    exact this
+    exact abortLoops_chans' s _ (by left; simp)
   | sctpDtls =>
     simp only [apply]; split
     · split
       · exact Or.inl rfl
-      · exact sctpEnd_chans s
+      · exact sctpEnd_chans' s _ rfl
     · exact sctpEnd_chans' s _ rfl
   | sctpClose => exact sctpEnd_chans' s _ rfl
   | _ => exact Or.inl rfl
@@ -194,9 +284,9 @@ theorem apply_chans (s : St) (a : Act) : ChansStep s.chans (apply s a).chans := 
 /-- per action: a reason that is set stays -/
 theorem apply_reason_keeps (s : St) (a : Act) (r : Reason) (h : s.reason = some r) : (apply s a).reason = some r := by
   cases a with
-  | callClose arg => exact closeA_keeps s arg r h
+  | callClose arg => exact closeA_keeps s r arg h
   | closeStep => simp only [apply]; split <;> simp [h]
-  | appDrop => simp only [apply]; split; exact h; exact dropAll_keeps s r h
+  | appDrop => simp only [apply]; split; exact h; exact dropAll_keeps _ r h
   | drvTop =>
     simp only [apply]; split
     · simp [h]
@@ -204,14 +294,19 @@ theorem apply_reason_keeps (s : St) (a : Act) (r : Reason) (h : s.reason = some 
       · exact topDown_keeps s r h
       · exact h
   | drvRole => simp [apply, h]
+  | drvDescs => simp only [apply]; split <;> exact h
   | drvStart =>
     simp only [apply]; split
     · split
-      · exact h
-      · simp [setReasonIfNone, h]
+      · split
+        · exact release_keeps _ r h
+        · exact release_keeps _ r h
+      · exact release_keeps _ r (by simp [setReasonIfNone, h])
     · split
-      · exact h
-      · simp [setReasonIfNone, h]
+      · split
+        · exact release_keeps _ r (by simp [h])
+        · exact release_keeps _ r h
+      · exact release_keeps _ r (by simp [setReasonIfNone, h])
   | drvLoops =>
     simp only [apply]
     have h1 : (abortLoops (propagate s)).reason = some r := by simp [propagate_keeps s r h]
@@ -223,8 +318,10 @@ theorem apply_reason_keeps (s : St) (a : Act) (r : Reason) (h : s.reason = some 
     · exact topDown_keeps _ r (by simp [h])
     · split
       · split
-        · exact h
-        · split <;> exact h
+        · simp [h]
+        · split
+          · simp [h]
+          · exact h
       · exact h
   | drvDtls =>
     simp only [apply]; split
@@ -242,9 +339,119 @@ theorem apply_reason_keeps (s : St) (a : Act) (r : Reason) (h : s.reason = some 
   | sctpClose => simp [apply, h]
   | _ => exact h
 
-end RtcModel.Lifecycle
+/-- per action: `Closed` is final (fix 0e0d29e) -/
+theorem apply_peer_closed (s : St) (a : Act) (h : s.peer = .closed) : (apply s a).peer = .closed := by
+  cases a with
+  | callClose arg => exact closeA_closed s arg h
+  | closeStep => simp only [apply]; split <;> simp [closeB, closeC, h]
+  | appDrop => simp only [apply]; split; exact h; exact dropAll_peer _
+  | drvTop =>
+    simp only [apply]; split
+    · simp [h]
+    · split
+      · exact topDown_closed s h
+      · exact h
+  | drvRole => simp [apply, h]
+  | drvDescs => simp only [apply]; split <;> exact h
+  | drvStart =>
+    simp only [apply]; split
+    · split
+      · exact release_closed _ h
+      · exact release_closed _ (failExit_closed _ (by simp [h]))
+    · split
+      · exact release_closed _ (by simp [h])
+      · exact release_closed _ (by simp [failExit_closed _ (show (setReasonIfNone s .dtlsFailed).peer = .closed by simp [h])])
+  | drvLoops =>
+    simp only [apply]
+    have h1 : (abortLoops (propagate s)).peer = .closed := by simp [propagate_closed s h]
+    split
+    · exact topDown_closed _ h1
+    · exact h1
+  | drvIce =>
+    simp only [apply]; split
+    · exact topDown_closed _ (by simp [h])
+    · split
+      · split
+        · simp [setPeer, h]
+        · split
+          · simp [setPeer, h]
+          · exact h
+      · exact h
+  | drvDtls =>
+    simp only [apply]; split
+    · simp [setPeer, h]
+    · exact h
+  | drvGrace => simp [apply, setPeer, h]
+  | sctpDtls =>
+    simp only [apply]; split
+    · split <;> simp [h]
+    · simp [h]
+  | peerAbort => simp [apply, h]
+  | peerShutdownAck => simp [apply, h]
+  | peerShutdown => simp [apply, h]
+  | hbTimeout => simp [apply, h]
+  | sctpClose => simp [apply, h]
+  | _ => exact h
 
-namespace RtcModel.Lifecycle
+/-- per action: signaling `Closed` is final -/
+theorem apply_sig_closed (s : St) (a : Act) (h : s.sig = .closed) : (apply s a).sig = .closed := by
+  cases a with
+  | callClose arg => exact closeA_sig s arg h
+  | closeStep => simp only [apply]; split <;> simp [closeB, closeC, h]
+  | appDrop => simp only [apply]; split; exact h; exact dropAll_sig _ h
+  | drvTop =>
+    simp only [apply]; split
+    · simp [h]
+    · split
+      · exact topDown_sig s h
+      · exact h
+  | drvRole => simp [apply, h]
+  | drvDescs => simp only [apply]; split <;> exact h
+  | drvStart =>
+    simp only [apply]; split
+    · split
+      · split
+        · exact release_sig _ h
+        · exact release_sig _ h
+      · exact release_sig _ (by simp [h])
+    · split
+      · split
+        · exact release_sig _ (by simp [h])
+        · exact release_sig _ h
+      · exact release_sig _ (by simp [h])
+  | drvLoops =>
+    simp only [apply]
+    have h1 : (abortLoops (propagate s)).sig = .closed := by simp [h]
+    split
+    · exact topDown_sig _ h1
+    · exact h1
+  | drvIce =>
+    simp only [apply]; split
+    · exact topDown_sig _ (by simp [h])
+    · split
+      · split
+        · simp [h]
+        · split
+          · simp [h]
+          · exact h
+      · exact h
+  | drvDtls =>
+    simp only [apply]; split
+    · simp [h]
+    · exact h
+  | drvGrace => simp [apply, h]
+  | sctpDtls =>
+    simp only [apply]; split
+    · split <;> simp [h]
+    · simp [h]
+  | peerAbort => simp [apply, h]
+  | peerShutdownAck => simp [apply, h]
+  | peerShutdown => simp [apply, h]
+  | hbTimeout => simp [apply, h]
+  | sctpClose => simp [apply, h]
+  | _ => exact h
+
+/-! ### terminal -/
 
 theorem terminal_iff (s : St) : terminal s = true ↔
     (s.peer = .disconnected ∨ s.peer = .failed ∨ s.peer = .closed) ∧ ∃ r, s.reason = some r := by
@@ -254,21 +461,6 @@ theorem terminal_iff (s : St) : terminal s = true ↔
 /-- a state that differs only in fields other than `peer` / `reason` is terminal iff the original is -/
 theorem terminal_congr (s t : St) (hp : t.peer = s.peer) (hr : t.reason = s.reason) : terminal t = terminal s := by
   simp [terminal, hp, hr]
-
-@[simp] theorem setReasonIfNone_drv (s : St) (r : Reason) : (setReasonIfNone s r).drv = s.drv := by
-  unfold setReasonIfNone; split <;> rfl
-@[simp] theorem setReasonIfNone_peer (s : St) (r : Reason) : (setReasonIfNone s r).peer = s.peer := by
-  unfold setReasonIfNone; split <;> rfl
-
-theorem teardown_peer (s : St) (a : Reason) : (teardown s a).peer = .closed := by
-  unfold teardown; split <;> simp_all
-
-@[simp] theorem abortLoops_peer (s : St) : (abortLoops s).peer = s.peer := by unfold abortLoops; split <;> rfl
-@[simp] theorem abortLoops_drv (s : St) : (abortLoops s).drv = s.drv := by unfold abortLoops; split <;> rfl
-@[simp] theorem teardown_drv (s : St) (a : Reason) : (teardown s a).drv = s.drv := by
-  unfold teardown; split <;> simp
-@[simp] theorem closeA_drv (s : St) (a : Reason) : (closeA s a).drv = s.drv := by
-  unfold closeA; split <;> simp
 
 /-- with the driving loop gone and a terminal state, one step of any actor keeps both -/
 theorem step_done_terminal (s : St) (a : Act) (ht : terminal s = true) (hd : s.drv = .done) :
@@ -281,20 +473,22 @@ theorem step_done_terminal (s : St) (a : Act) (ht : terminal s = true) (hd : s.d
     | callClose arg =>
       refine ⟨?_, by simp [apply, hd]⟩
       rw [terminal_iff]
-      refine ⟨?_, r, closeA_keeps s arg r hr⟩
+      refine ⟨?_, r, closeA_keeps s r arg hr⟩
       simp only [apply]; unfold closeA; split
       · simpa using hp
       · simp
     | closeStep =>
       simp only [apply]; split
       · exact ⟨(terminal_congr s _ rfl rfl).trans ht, hd⟩
-      · exact ⟨(terminal_congr s _ rfl rfl).trans ht, hd⟩
+      · exact ⟨(terminal_congr s _ (by simp [closeC]) (by simp [closeC])).trans ht, by simp [closeC]⟩
     | appDrop =>
       simp only [apply]; split
-      · exact ⟨ht, hd⟩
-      · refine ⟨?_, by simp [dropAll]⟩
+      · exact ⟨(terminal_congr s _ rfl rfl).trans ht, hd⟩
+      · refine ⟨?_, by simp⟩
         rw [terminal_iff]
-        exact ⟨Or.inr (Or.inr (by simp [dropAll, teardown_peer])), r, dropAll_keeps s r hr⟩
+        exact ⟨Or.inr (Or.inr (dropAll_peer _)), r, dropAll_keeps _ r hr⟩
+    | closeChannel i => exact ⟨(terminal_congr s _ rfl rfl).trans ht, hd⟩
+    | senderBlocks => exact ⟨(terminal_congr s _ rfl rfl).trans ht, hd⟩
     | peerAbort => exact ⟨(terminal_congr s _ rfl rfl).trans ht, hd⟩
     | peerShutdownAck => exact ⟨(terminal_congr s _ rfl rfl).trans ht, hd⟩
     | peerShutdown => exact ⟨(terminal_congr s _ rfl rfl).trans ht, hd⟩
@@ -308,10 +502,12 @@ theorem step_done_terminal (s : St) (a : Act) (ht : terminal s = true) (hd : s.d
     | iceConnect => exact ⟨(terminal_congr s _ rfl rfl).trans ht, hd⟩
     | dtlsConnect => exact ⟨(terminal_congr s _ rfl rfl).trans ht, hd⟩
     | roleSet => exact ⟨(terminal_congr s _ rfl rfl).trans ht, hd⟩
+    | descsSet => exact ⟨(terminal_congr s _ rfl rfl).trans ht, hd⟩
     | dtlsExit => exact ⟨(terminal_congr s _ rfl rfl).trans ht, hd⟩
     | dtlsSock => exact ⟨(terminal_congr s _ rfl rfl).trans ht, hd⟩
     | drvTop => simp [enabled, hd] at hen
     | drvRole => simp [enabled, hd] at hen
+    | drvDescs => simp [enabled, hd] at hen
     | drvStart => simp [enabled, hd] at hen
     | drvLoops => simp [enabled, hd] at hen
     | drvIce => simp [enabled, hd] at hen
@@ -320,5 +516,38 @@ theorem step_done_terminal (s : St) (a : Act) (ht : terminal s = true) (hd : s.d
     | sctpDtls => simp [enabled, hd] at hen
     | sctpClose => simp [enabled, hd] at hen
   · simp only [hen]; exact ⟨ht, hd⟩
+
+/-! ### certificates: a finite set closed under a set of actions contains every reachable state -/
+
+/-- `V` contains the image of each of its members under each action of `acts` -/
+def closedUnder (acts : List Act) (V : List St) : Bool :=
+  V.all (fun s => acts.all (fun a => V.contains (step s a)))
+
+theorem closedUnder_sound (acts : List Act) (V : List St) (hcl : closedUnder acts V = true)
+    (s : St) (hs : s ∈ V) (as : List Act) (has : ∀ a ∈ as, a ∈ acts) : run s as ∈ V := by
+  induction as generalizing s with
+  | nil => exact hs
+  | cons a rest ih =>
+    simp only [run, List.foldl_cons]
+    have : step s a ∈ V := by
+      unfold closedUnder at hcl
+      rw [List.all_eq_true] at hcl
+      have h1 := hcl s hs
+      rw [List.all_eq_true] at h1
+      have h2 := h1 a (has a (by simp))
+      simpa using h2
+    exact ih (step s a) this (fun b hb => has b (by simp [hb]))
+
+/-- one round of the closure computation -/
+def expand (acts : List Act) (V : List St) : List St :=
+  V.foldl (fun acc s => acts.foldl (fun acc a => let t := step s a; if acc.contains t then acc else acc ++ [t]) acc) V
+
+/-- iterate `expand` until nothing new appears (or the fuel runs out — the certificate check
+`closedUnder` then fails, so a too small fuel is never unsound) -/
+def closure (acts : List Act) : Nat → List St → List St
+  | 0, V => V
+  | n + 1, V =>
+    let V' := expand acts V
+    if V'.length = V.length then V else closure acts n V'
 
 end RtcModel.Lifecycle
